@@ -13,11 +13,18 @@
 package c13
 
 import (
+	"bufio"
+	"crypto/sha256"
+	"encoding/hex"
 	"encoding/json"
+	"errors"
 	"fmt"
 	"os"
+	"os/exec"
 	"path/filepath"
+	"regexp"
 	"runtime"
+	"runtime/debug"
 	"sort"
 	"strconv"
 	"strings"
@@ -28,6 +35,7 @@ import (
 	"github.com/cespare/xxhash/v2"
 	"github.com/influxdata/influxdb/v2/models"
 	"github.com/influxdata/influxdb/v2/tsdb"
+	"verif/h/crashfs"
 	"verif/h/vlib"
 )
 
@@ -68,6 +76,7 @@ func partitionOf(k KeyDef) int {
 
 // Domain is a finite key domain; ops refer to keys by index.
 type Domain struct {
+	Name string
 	Keys []KeyDef
 	Part []int
 }
@@ -76,7 +85,11 @@ type Domain struct {
 const (
 	DomSmall = "small" // 4 short keys, K[0] and K[1] in the same partition, K[2], K[3] in two other partitions
 	DomBig   = "big"   // segment-roll domain: all keys in ONE partition; see bigDomain
+	DomP7    = "p7"    // crash family only: 34 short keys, all in partition 7 (ids 8, 16, .., 256, 264, 272): the id crosses a byte boundary
 )
+
+// p7Keys is the size of the p7 domain: keys 0..31 get ids 8..256 (0x100), keys 32 and 33 the ids 0x108 and 0x110.
+const p7Keys = 34
 
 // bigPrefill 64 KiB-class keys fill the fixed 4 MiB first segment of the partition up to less than one such
 // entry, so that the next big key rolls over to segment 0001 while a short key or a tombstone still fits.
@@ -102,10 +115,26 @@ func getDomain(name string) *Domain {
 		d = smallDomain()
 	case DomBig:
 		d = bigDomain()
+	case DomP7:
+		d = p7Domain()
 	default:
 		panic("unknown domain " + name)
 	}
+	d.Name = name
 	domCache[name] = d
+	return d
+}
+
+// p7Domain: short keys that all hash to partition 7 (whose ids are the multiples of 8).
+func p7Domain() *Domain {
+	d := &Domain{}
+	for n := 0; len(d.Keys) < p7Keys; n++ {
+		k := KeyDef{Name: "mem", Tags: [][2]string{{"host", fmt.Sprintf("q%04d", n)}}}
+		if partitionOf(k) == 7 {
+			d.Keys = append(d.Keys, k)
+			d.Part = append(d.Part, 7)
+		}
+	}
 	return d
 }
 
@@ -182,7 +211,7 @@ const (
 	OpCreate  = "create"  // SeriesFile.CreateSeriesListIfNotExists(Keys...) (one call; Keys may repeat)
 	OpDelete  = "delete"  // SeriesFile.DeleteSeriesID(id last returned for Keys[0], flush) (unknown id if never created)
 	OpReopen  = "reopen"  // Close + new SeriesFile + Open
-	OpCompact = "compact" // SeriesPartitionCompactor.Compact on every partition (index rebuild + swap), synchronously
+	OpCompact = "compact" // SeriesPartitionCompactor.Compact on every partition (with Keys: only on the partitions of these keys) (index rebuild + swap), synchronously
 )
 
 // Op is one step of a history.
@@ -246,6 +275,11 @@ func unknownID(d *Domain, key int) uint64 { return uint64(8*100000 + d.Part[key]
 
 func openSF(dir string, cfg Cfg) (*tsdb.SeriesFile, error) {
 	sf := tsdb.NewSeriesFile(dir)
+	if cfg.Auto {
+		// the default limit is GOMAXPROCS concurrent index compactions per series file: which partitions of a batch
+		// get to compact would then depend on goroutine timing
+		sf.WithMaxCompactionConcurrency(tsdb.SeriesFilePartitionN)
+	}
 	if err := sf.Open(); err != nil {
 		return nil, err
 	}
@@ -328,7 +362,14 @@ func PerformHistory(dir string, cfg Cfg, ops []Op, ack Acker, after func(step in
 			}
 			sf = nsf
 		case OpCompact:
+			only := map[int]bool{} // Keys given (crash family): only the partitions holding these keys
+			for _, k := range op.Keys {
+				only[d.Part[k]] = true
+			}
 			for _, p := range sf.Partitions() {
+				if len(only) > 0 && !only[p.ID()] {
+					continue
+				}
 				if e := tsdb.NewSeriesPartitionCompactor().Compact(p); e != nil {
 					res.Err += fmt.Sprintf("partition %d: %v;", p.ID(), e)
 				}
@@ -646,6 +687,24 @@ func usedIDs(m *Model) []uint64 {
 // ids, the others get ids never handed out — and (secondRestart) restart a second time and compare exactly
 // with the settled model. stage tells where it failed ("open", "first-read", "create-after", "second-open", "second-read").
 func CheckRecovery(dir string, cfg Cfg, e Expect, createKeys []int, secondRestart bool) (m *Model, stage string, f *Fail) {
+	return CheckRecoveryInfo(dir, cfg, e, createKeys, secondRestart, nil)
+}
+
+// RecoveryInfo is what the recovery checker additionally reports about the first read (never judged: it feeds the
+// outcome histogram of the crash family).
+type RecoveryInfo struct {
+	// Settle: how the op in flight shows after the recovery: "none" (no op in flight) | "create:absent" |
+	// "create:present" | "create:partial" | "create:nothing-new" | "delete:applied" | "delete:not-applied" |
+	// "delete:noop" | the kind of any other op.
+	Settle string
+	// Phantoms: ids of insert entries found in the segment files (SeriesPartition.AppendSeriesIDs) that were never
+	// acknowledged and do not belong to a key of the op in flight, with the key SeriesKey returns for them.
+	Phantoms []string
+	State    string // the settled model, canonical
+}
+
+// CheckRecoveryInfo is CheckRecovery with the extra report (info may be nil).
+func CheckRecoveryInfo(dir string, cfg Cfg, e Expect, createKeys []int, secondRestart bool, info *RecoveryInfo) (m *Model, stage string, f *Fail) {
 	d := getDomain(cfg.Domain)
 	sf, err := openSF(dir, cfg)
 	if err != nil {
@@ -660,6 +719,20 @@ func CheckRecovery(dir string, cfg Cfg, e Expect, createKeys []int, secondRestar
 	o := ReadAll(sf, d, usedIDs(e.M))
 	if m, f = Compare(d, o, e); f != nil {
 		return nil, "first-read", f
+	}
+	if info != nil {
+		info.Settle = settleClass(e, m)
+		info.State = fmt.Sprintf("live=%v dead=%v", m.Live, m.Dead)
+		var all []uint64
+		for _, p := range sf.Partitions() {
+			all = p.AppendSeriesIDs(all)
+		}
+		sort.Slice(all, func(i, j int) bool { return all[i] < all[j] })
+		for _, id := range all {
+			if _, ok := m.Used[id]; !ok {
+				info.Phantoms = append(info.Phantoms, fmt.Sprintf("%d:%q", id, short(string(sf.SeriesKey(id)))))
+			}
+		}
 	}
 	if createKeys == nil {
 		for k := range d.Keys {
@@ -704,6 +777,48 @@ func CheckRecovery(dir string, cfg Cfg, e Expect, createKeys []int, secondRestar
 	return m, "", nil
 }
 
+// settleClass names how the op in flight of e shows in the settled model m.
+func settleClass(e Expect, m *Model) string {
+	if e.InFlight == nil {
+		return "none"
+	}
+	switch op := e.InFlight.Op; op.Kind {
+	case OpCreate:
+		want, have := 0, 0
+		seen := map[int]bool{}
+		for _, k := range op.Keys {
+			if e.M.Live[k] != 0 || seen[k] {
+				continue
+			}
+			seen[k] = true
+			want++
+			if m.Live[k] != 0 {
+				have++
+			}
+		}
+		switch {
+		case want == 0:
+			return "create:nothing-new"
+		case have == 0:
+			return "create:absent"
+		case have == want:
+			return "create:present"
+		}
+		return "create:partial"
+	case OpDelete:
+		k := op.Keys[0]
+		switch {
+		case e.M.Live[k] == 0 || (e.InFlight.Target != 0 && e.InFlight.Target != e.M.Live[k]):
+			return "delete:noop"
+		case m.Live[k] == 0:
+			return "delete:applied"
+		}
+		return "delete:not-applied"
+	default:
+		return op.Kind
+	}
+}
+
 func compareOpen(sf *tsdb.SeriesFile, d *Domain, m *Model) *Fail {
 	_, f := Compare(d, ReadAll(sf, d, usedIDs(m)), Expect{M: m})
 	return f
@@ -719,7 +834,8 @@ type Case struct {
 	Ops []Op `json:"ops"`
 	// Tail: after the last op run the recovery checker on the directory: 1 = clean Close, reopen, read all,
 	// create every op key again, read all; 2 = additionally a second restart + read all; 0 = none.
-	Tail int `json:"tail"`
+	Tail  int        `json:"tail"`
+	Crash *CrashCase `json:"crash,omitempty"` // crash family (then the other fields are unused)
 }
 
 type runResult struct {
@@ -858,7 +974,7 @@ func runCase(base string, cs Case) (rr runResult) {
 // tailKeys: the keys the closing phase creates again (the op keys; for the big domain not the prefill keys).
 func tailKeys(d *Domain) []int {
 	n := len(d.Keys)
-	if n > 8 {
+	if d.Name == DomBig {
 		n = 3
 	}
 	ks := make([]int, n)
@@ -1021,24 +1137,987 @@ func families(thorough bool) []family {
 	}
 }
 
+// =========================================================================================================
+// crash family (engine: verif/h/crashfs)
+//
+// A history writer (this binary re-executed under strace) performs a history through PerformHistory with BEGIN/ACK
+// markers around the initial Open (k=0) and every op (k=i+1) and exits without closing. Every prefix / torn-write /
+// unsynced image of the syscall log is materialized and recovered by CheckRecovery in a fresh subprocess.
+
+// CrashHistory is one recorded history of the crash family.
+type CrashHistory struct {
+	Name string `json:"name"`
+	Cfg  Cfg    `json:"cfg"`
+	Ops  []Op   `json:"ops"`
+	// From: only the images whose cut lies inside or after op From are evaluated (-1: every cut, including those of
+	// the initial Open on the empty directory). Earlier cuts belong to a shorter history of the family.
+	From int `json:"from"`
+	// Upto (0 = len(Ops)): only cuts before the BEGIN of op Upto are evaluated. [From, Upto) is the op window of this
+	// work item: a long history is split into one item per op, each recorded again, so that every image is evaluated
+	// by exactly one worker whatever the recordings look like.
+	Upto int `json:"upto,omitempty"`
+	// Manual: the images are not taken from the engine's enumeration (which would tear every one of the 64 prefill
+	// writes of 65 KB) but built one by one from descriptors: every P cut inside or after op From, for every write
+	// event there the torn lengths of manualTornLens, and the drop-all U image of every cut that has one.
+	Manual bool `json:"manual,omitempty"`
+}
+
+func (h CrashHistory) String() string {
+	w := ""
+	if h.Upto != 0 {
+		w = fmt.Sprintf(" cuts of ops %d..%d", h.From, h.Upto-1)
+	} else if h.From > 0 {
+		w = fmt.Sprintf(" cuts of ops %d..", h.From)
+	}
+	return h.Name + " [" + opsString(h.Ops) + "]" + w
+}
+
+// splitAt splits a history into work items at the given op indexes (increasing, inside the window).
+func splitAt(h CrashHistory, at ...int) []CrashHistory {
+	var out []CrashHistory
+	lo := h.From
+	for _, b := range append(at, len(h.Ops)) {
+		w := h
+		w.From, w.Upto = lo, b
+		out = append(out, w)
+		lo = b
+	}
+	return out
+}
+
+// perOp splits a history into one work item per op of its window (the initial Open stays with op 0).
+func perOp(h CrashHistory) []CrashHistory {
+	var out []CrashHistory
+	lo := max(h.From, 0)
+	for i := lo; i < len(h.Ops); i++ {
+		w := h
+		w.From, w.Upto = i, i+1
+		if i == lo {
+			w.From = h.From
+		}
+		out = append(out, w)
+	}
+	return out
+}
+
+func mkOp(kind string, keys ...int) Op { return Op{Kind: kind, Keys: keys} }
+
+// CrashAlphabet is the alphabet of the enumerated crash histories (thorough): creates (single, same partition pair,
+// batch over three partitions with a repeat), flushed deletes, reopen, index compaction of K0's partition.
+func CrashAlphabet() []Op {
+	return []Op{
+		mkOp(OpCreate, 0), mkOp(OpCreate, 1), mkOp(OpCreate, 0, 1), mkOp(OpCreate, 3, 0, 1, 2, 0),
+		mkOp(OpDelete, 0), mkOp(OpDelete, 1), mkOp(OpReopen), mkOp(OpCompact, 0),
+	}
+}
+
+func seqKeys(lo, n int) []int {
+	ks := make([]int, n)
+	for i := range ks {
+		ks[i] = lo + i
+	}
+	return ks
+}
+
+// crashHistories lists the work items of a tier, simplest first.
+func crashHistories(tier string) []CrashHistory {
+	ex, au, p7 := Cfg{Domain: DomSmall}, Cfg{Domain: DomSmall, Auto: true}, Cfg{Domain: DomP7}
+	thorough := tier == "thorough"
+	var hs []CrashHistory
+	// thorough: one work item per op; quick: the given split points (about 200 images per item, one item per worker)
+	add := func(h CrashHistory, quickSplit ...int) {
+		if thorough {
+			hs = append(hs, perOp(h)...)
+		} else {
+			hs = append(hs, splitAt(h, quickSplit...)...)
+		}
+	}
+	// the initial Open of the empty directory (8 partitions: mkdir, 0000.initializing, header, truncate, fsync,
+	// rename), single create, create of a live key + a new one in the same partition, batch over 3 partitions
+	add(CrashHistory{Name: "open-create-batch", Cfg: ex, Ops: []Op{mkOp(OpCreate, 0), mkOp(OpCreate, 0, 1), mkOp(OpCreate, 3, 0, 1, 2, 0)}, From: -1}, 1)
+	// tombstones, re-creation (fresh id), reopen between them, delete of a deleted id, batch re-creation
+	add(CrashHistory{Name: "delete-recreate", Cfg: ex, Ops: []Op{mkOp(OpCreate, 0, 1), mkOp(OpDelete, 0), mkOp(OpCreate, 0), mkOp(OpReopen), mkOp(OpDelete, 1), mkOp(OpDelete, 0), mkOp(OpDelete, 0), mkOp(OpCreate, 0, 1)}}, 3)
+	// ids crossing a byte boundary: 32 series in partition 7 (ids 8..0x100) acknowledged, then create (id 0x108),
+	// delete of it, create of two (0x110, 0x118), delete of the series with id 0x100, re-creation
+	add(CrashHistory{Name: "id-byte-boundary", Cfg: p7, Ops: []Op{mkOp(OpCreate, seqKeys(0, 32)...), mkOp(OpCreate, 32), mkOp(OpDelete, 32), mkOp(OpCreate, 33, 32), mkOp(OpDelete, 31), mkOp(OpCreate, 31)}, From: 1}, 3)
+	if !thorough {
+		// explicit index compaction (index.compacting written, synced, renamed over index) of the partition of K0/K1
+		// with a live and a deleted series; entries behind the compacted index; second compaction over an existing index
+		add(CrashHistory{Name: "compact", Cfg: ex, Ops: []Op{mkOp(OpCreate, 0, 1), mkOp(OpDelete, 1), mkOp(OpCompact, 0), mkOp(OpCreate, 1, 2), mkOp(OpCompact, 0), mkOp(OpDelete, 0)}}, 3)
+		// the partition's own background compaction after every creating call (CompactThreshold = 1)
+		add(CrashHistory{Name: "auto-compact", Cfg: au, Ops: []Op{mkOp(OpCreate, 0), mkOp(OpDelete, 0), mkOp(OpCreate, 0, 2)}}, 2)
+		return hs
+	}
+	add(CrashHistory{Name: "compact", Cfg: ex, Ops: []Op{mkOp(OpCreate, 0, 1), mkOp(OpCreate, 2), mkOp(OpDelete, 1), mkOp(OpCompact, 0, 2), mkOp(OpCreate, 1, 3), mkOp(OpDelete, 0), mkOp(OpCompact, 0), mkOp(OpCreate, 0), mkOp(OpReopen), mkOp(OpDelete, 2)}})
+	add(CrashHistory{Name: "auto-compact", Cfg: au, Ops: []Op{mkOp(OpCreate, 0), mkOp(OpCreate, 1), mkOp(OpDelete, 0), mkOp(OpCreate, 0, 2), mkOp(OpReopen), mkOp(OpCreate, 3)}})
+	// the whole prefill write of the byte-boundary history (one write of 32 entries, every torn length)
+	add(CrashHistory{Name: "id-byte-boundary-prefill", Cfg: p7, Ops: []Op{mkOp(OpCreate, seqKeys(0, 32)...)}})
+	// compaction of all eight partitions
+	add(CrashHistory{Name: "compact-all", Cfg: ex, Ops: []Op{mkOp(OpCreate, 3, 0, 1, 2, 0), mkOp(OpDelete, 2), mkOp(OpCompact), mkOp(OpCreate, 2)}, From: 1})
+	// segment roll: 64 keys of 65 KB fill segment 0000, big key A rolls to 0001, short key, delete, big key B
+	add(CrashHistory{Name: "segment-roll", Cfg: Cfg{Domain: DomBig}, Ops: append(BigPrefix(), mkOp(OpCreate, 0), mkOp(OpCreate, 2), mkOp(OpDelete, 0), mkOp(OpCreate, 1), mkOp(OpDelete, 3)), From: 1, Manual: true})
+	// every sequence of length 1..2 over the crash alphabet and of length 3 over its same-partition part: cuts of the last op
+	seq := func(ops []Op) bool {
+		hs = append(hs, CrashHistory{Name: "seq", Cfg: ex, Ops: ops, From: len(ops) - 1})
+		return true
+	}
+	forEachSeq(CrashAlphabet(), 1, 2, seq)
+	forEachSeq(CrashPairAlphabet(), 3, envInt("C13_CRASH_DEPTH", 3), seq)
+	return hs
+}
+
+// CrashPairAlphabet: the part of CrashAlphabet on the two keys sharing a partition.
+func CrashPairAlphabet() []Op {
+	return []Op{mkOp(OpCreate, 0), mkOp(OpCreate, 1), mkOp(OpDelete, 0), mkOp(OpDelete, 1), mkOp(OpReopen), mkOp(OpCompact, 0)}
+}
+
+// ---------------------------------------------------------------- history writer (runs under strace)
+
+type crashWriterSpec struct {
+	Dir     string `json:"dir"`
+	Markers string `json:"markers"`
+	Cfg     Cfg    `json:"cfg"`
+	Ops     []Op   `json:"ops"`
+}
+
+// markerOp is the BEGIN payload: I = -1 is the initial Open.
+type markerOp struct {
+	I  int `json:"i"`
+	Op Op  `json:"op"`
+}
+
+// shiftAcker turns PerformHistory's Begin/Ack(step) into markers k = step+1 and acknowledges the initial Open (k=0)
+// right before the first op begins.
+type shiftAcker struct {
+	m      *crashfs.Markers
+	opened bool
+}
+
+func (a *shiftAcker) open() {
+	if !a.opened {
+		a.opened = true
+		a.m.Ack(0, "{}")
+	}
+}
+func (a *shiftAcker) Begin(k int, v any)       { a.open(); a.m.Begin(k+1, markerOp{I: k, Op: v.(Op)}) }
+func (a *shiftAcker) Ack(k int, result string) { a.m.Ack(k+1, result) }
+
+func crashWriterMain(js string) int {
+	var sp crashWriterSpec
+	if err := json.Unmarshal([]byte(js), &sp); err != nil {
+		fmt.Fprintln(os.Stderr, "c13 writer: bad spec:", err)
+		return 2
+	}
+	getDomain(sp.Cfg.Domain) // before the first marker: pure computation
+	m, err := crashfs.OpenMarkers(sp.Markers)
+	if err != nil {
+		fmt.Fprintln(os.Stderr, "c13 writer:", err)
+		return 2
+	}
+	a := &shiftAcker{m: m}
+	m.Begin(0, markerOp{I: -1, Op: Op{Kind: "open"}})
+	_, _, err = PerformHistory(sp.Dir, sp.Cfg, sp.Ops, a, nil)
+	if err != nil {
+		fmt.Fprintln(os.Stderr, "c13 writer: history failed live:", err)
+		return 1
+	}
+	a.open()
+	return 0 // the process exits with the series file open (nothing is closed or flushed)
+}
+
+// ---------------------------------------------------------------- acknowledgement context
+
+// crashCtx is the model of one image: the acknowledged ops applied to the reference model + the op in flight.
+type crashCtx struct {
+	M      *Model
+	InFl   *InFlightOp
+	Infl   string // kind of the op in flight: none | open | create | delete | reopen | compact
+	InflI  int    // its index (-1: open or none)
+	NAcked int    // acknowledged ops (without the initial Open)
+}
+
+// contextOf rebuilds the model from the acknowledgements before the cut. An acknowledged result that the model
+// rejects is a LIVE failure of the history (the sequential family's business): it is returned as err.
+func contextOf(d *Domain, im *crashfs.Image) (cx crashCtx, err error) {
+	cx.M, cx.Infl, cx.InflI = NewModel(), "none", -1
+	lastID := map[int]uint64{}
+	for _, a := range im.Acked() {
+		var mo markerOp
+		if err := json.Unmarshal([]byte(a.Op), &mo); err != nil {
+			return cx, fmt.Errorf("marker payload %q: %v", a.Op, err)
+		}
+		if mo.I < 0 {
+			continue
+		}
+		var res OpResult
+		if err := json.Unmarshal([]byte(a.Result), &res); err != nil {
+			return cx, fmt.Errorf("ack payload %q: %v", a.Result, err)
+		}
+		cx.NAcked++
+		if f := cx.M.Apply(d, mo.Op, res); f != nil {
+			return cx, fmt.Errorf("the history failed live at op %d %s: %s: %s", mo.I, mo.Op, f.Clause, f.Why)
+		}
+		if mo.Op.Kind == OpCreate {
+			for i, k := range mo.Op.Keys {
+				lastID[k] = res.IDs[i]
+			}
+		}
+	}
+	if f := im.InFlight(); f != nil {
+		var mo markerOp
+		if err := json.Unmarshal([]byte(f.Op), &mo); err != nil {
+			return cx, fmt.Errorf("marker payload %q: %v", f.Op, err)
+		}
+		cx.Infl, cx.InflI = mo.Op.Kind, mo.I
+		if mo.I >= 0 {
+			cx.InFl = &InFlightOp{Op: mo.Op}
+			if mo.Op.Kind == OpDelete {
+				if cx.InFl.Target = lastID[mo.Op.Keys[0]]; cx.InFl.Target == 0 {
+					cx.InFl.Target = unknownID(d, mo.Op.Keys[0])
+				}
+			}
+		}
+	}
+	return cx, nil
+}
+
+// keep reports whether the cut of an image lies inside or after op h.From.
+func (h CrashHistory) keep(cx crashCtx) bool {
+	pos := cx.NAcked - 1 // the op the cut belongs to: the one in flight, else the last acknowledged one (-1: the initial Open)
+	if cx.Infl != "none" {
+		pos = cx.InflI
+	}
+	return pos >= h.From && (h.Upto == 0 || pos < h.Upto)
+}
+
+// ---------------------------------------------------------------- recovery checker (fresh subprocess, batch of images)
+
+// CrashObs is the verdict of the recovery checker on one image under one acknowledgement context.
+type CrashObs struct {
+	ID       string   `json:"id"`
+	Done     bool     `json:"done"`
+	Stage    string   `json:"stage,omitempty"`  // where CheckRecovery failed
+	Clause   string   `json:"clause,omitempty"` // violated clause ("" = the image recovers as the oracle demands)
+	Why      string   `json:"why,omitempty"`
+	Panic    string   `json:"panic,omitempty"`
+	Died     string   `json:"died,omitempty"` // set by the parent: the recovery subprocess died or hung on this image, also when run alone
+	Settle   string   `json:"settle,omitempty"`
+	Phantoms []string `json:"phantoms,omitempty"`
+	State    string   `json:"state,omitempty"`
+}
+
+type crashRecItem struct {
+	ID     string      `json:"id"`
+	Dir    string      `json:"dir"`
+	Cfg    Cfg         `json:"cfg"`
+	M      *Model      `json:"model"`
+	InFl   *InFlightOp `json:"in_flight,omitempty"`
+	Second bool        `json:"second_restart"`
+}
+
+type crashRecJob struct {
+	Items []crashRecItem `json:"items"`
+	Out   string         `json:"out"`
+}
+
+func crashRecoverOne(it crashRecItem) (o CrashObs) {
+	o.ID = it.ID
+	d := getDomain(it.Cfg.Domain)
+	var info RecoveryInfo
+	panicked, desc := vlib.Guard(func() {
+		_, stage, f := CheckRecoveryInfo(it.Dir, it.Cfg, Expect{M: it.M, InFlight: it.InFl}, tailKeys(d), it.Second, &info)
+		if f != nil {
+			o.Stage, o.Clause, o.Why = stage, f.Clause, f.Why
+		}
+		o.Done = true
+	})
+	if panicked {
+		o.Panic = desc
+	}
+	o.Settle, o.Phantoms, o.State = info.Settle, info.Phantoms, info.State
+	o.Why = strings.ReplaceAll(o.Why, it.Dir, "<image>")
+	o.Panic = strings.ReplaceAll(o.Panic, it.Dir, "<image>")
+	return
+}
+
+func crashRecoverMain(jobPath string) int {
+	b, err := os.ReadFile(jobPath)
+	if err != nil {
+		fmt.Fprintln(os.Stderr, "c13 recover:", err)
+		return 2
+	}
+	var job crashRecJob
+	if err := json.Unmarshal(b, &job); err != nil {
+		fmt.Fprintln(os.Stderr, "c13 recover:", err)
+		return 2
+	}
+	out, err := os.OpenFile(job.Out, os.O_CREATE|os.O_WRONLY|os.O_APPEND, 0o666)
+	if err != nil {
+		fmt.Fprintln(os.Stderr, "c13 recover:", err)
+		return 2
+	}
+	debug.SetMaxStack(32 << 20)
+	for _, it := range job.Items {
+		fmt.Fprintf(os.Stderr, "c13 recover: image %s\n", it.ID)
+		o := crashRecoverOne(it)
+		line, _ := json.Marshal(o)
+		out.Write(append(line, '\n'))
+	}
+	out.Close()
+	return 0
+}
+
+// classify turns an observation into (clause, stage, detail); clause "" = ok, "harness" = not a verdict.
+func classify(o *CrashObs) (clause, stage, detail string) {
+	switch {
+	case o.Died != "":
+		return "recovery-died", "open", "the recovery process did not survive the crash image: " + o.Died
+	case o.Panic != "":
+		fr := o.Panic[strings.LastIndex(o.Panic, "@ ")+2:]
+		return "panic/" + strings.TrimPrefix(fr, "github.com/influxdata/influxdb/v2/"), "recovery", "panic during recovery: " + o.Panic
+	case !o.Done:
+		return "harness", "", "no verdict"
+	case o.Clause == "":
+		return "", "", ""
+	}
+	return o.Clause, o.Stage, o.Why
+}
+
+// ---------------------------------------------------------------- recording, image enumeration, driver
+
+// sync classes: the segment files (also under their .initializing name) and the index files (index, index.compacting)
+var crashImgOpts = crashfs.Options{SyncClasses: []string{"[0-9a-f][0-9a-f][0-9a-f][0-9a-f]", "[0-9a-f][0-9a-f][0-9a-f][0-9a-f].initializing", "index", "index.compacting"}, Torn: true, Unsynced: true}
+
+func selfEnv(extra ...string) []string {
+	var env []string
+	for _, e := range os.Environ() {
+		if strings.HasPrefix(e, "VERIF_WORKER") || strings.HasPrefix(e, "VERIF_REPLAY=") || strings.HasPrefix(e, "VERIF_CRASH_WRITER=") || strings.HasPrefix(e, "VERIF_C13_") || strings.HasPrefix(e, "GOMAXPROCS=") {
+			continue
+		}
+		env = append(env, e)
+	}
+	return append(env, extra...)
+}
+
+func recordCrashHistory(scratch string, h CrashHistory) (*crashfs.Log, error) {
+	dir, err := os.MkdirTemp(scratch, "rec-")
+	if err != nil {
+		return nil, err
+	}
+	defer os.RemoveAll(dir)
+	sp := crashWriterSpec{Dir: filepath.Join(dir, "_series"), Markers: filepath.Join(dir, "markers"), Cfg: h.Cfg, Ops: h.Ops}
+	js, _ := json.Marshal(sp)
+	return crashfs.Record(crashfs.RecordSpec{
+		Argv:       []string{os.Args[0], "-test.run", "^TestCheck$", "-test.timeout", "0"},
+		Env:        selfEnv("VERIF_CRASH_WRITER="+string(js), "GOMAXPROCS=1"),
+		DataDir:    sp.Dir,
+		MarkerFile: sp.Markers,
+	})
+}
+
+// prefixDigest pins the part of a log a descriptor depends on: every event up to the cut (and the torn write) with
+// paths, offsets and payload bytes. Two recordings with equal digests give byte-identical images.
+func prefixDigest(l *crashfs.Log, d crashfs.Descriptor) string {
+	n := d.Cut
+	if d.TornLen >= 0 && d.TornEvent >= n {
+		n = d.TornEvent + 1
+	}
+	if n > len(l.Events) {
+		return "log-too-short"
+	}
+	h := sha256.New()
+	for i := 0; i < n; i++ {
+		e := &l.Events[i]
+		fmt.Fprintf(h, "%s|%s|%s|%d|%d|%d|%x|", e.Op, e.Path, e.Path2, e.Ino, e.Off, e.Size, sha256.Sum256(e.Data))
+		if e.Marker != nil {
+			fmt.Fprintf(h, "%s|%d|%s|", e.Marker.Kind, e.Marker.K, e.Marker.Payload)
+		}
+	}
+	return hex.EncodeToString(h.Sum(nil)[:8])
+}
+
+var (
+	crashLogMu    sync.Mutex
+	crashLogCache = map[string]*crashfs.Log{} // recordings made by this process (the confirmation replays reuse them)
+)
+
+func crashHistoryKey(h CrashHistory) string {
+	b, _ := json.Marshal(struct {
+		Cfg Cfg
+		Ops []Op
+	}{h.Cfg, h.Ops})
+	return string(b)
+}
+
+func cacheCrashLog(h CrashHistory, l *crashfs.Log) {
+	if h.Cfg.Domain == DomBig {
+		return // 4 MiB of payload: not kept
+	}
+	crashLogMu.Lock()
+	crashLogCache[crashHistoryKey(h)] = l
+	crashLogMu.Unlock()
+}
+
+func findCrashLog(scratch string, h CrashHistory, d crashfs.Descriptor, digest string) (*crashfs.Log, string) {
+	crashLogMu.Lock()
+	l := crashLogCache[crashHistoryKey(h)]
+	crashLogMu.Unlock()
+	if l != nil && (digest == "" || prefixDigest(l, d) == digest) {
+		return l, ""
+	}
+	for try := 0; try < 4; try++ {
+		l, err := recordCrashHistory(scratch, h)
+		if err != nil {
+			return nil, "recording failed: " + err.Error()
+		}
+		cacheCrashLog(h, l)
+		if digest == "" || prefixDigest(l, d) == digest {
+			return l, ""
+		}
+	}
+	return nil, "could not re-record a log with the same event prefix (the history is not deterministic enough for this descriptor)"
+}
+
+// isolatedTimeout bounds the recovery of ONE image in its own subprocess (normally milliseconds plus process start).
+const isolatedTimeout = 60 * time.Second
+
+type crashItem struct {
+	im *crashfs.Image
+	cx crashCtx
+}
+
+// runCrashRecovery materializes the items into dir/<i> and runs ONE recovery subprocess over them. Items missing
+// from the result were not reached (the subprocess died or hung at the first missing one).
+func runCrashRecovery(dir string, cfg Cfg, second bool, items []crashItem, timeout time.Duration) (map[string]*CrashObs, string, error) {
+	job := crashRecJob{Out: filepath.Join(dir, "out.jsonl")}
+	for i, it := range items {
+		d := filepath.Join(dir, strconv.Itoa(i), "_series")
+		if err := os.MkdirAll(filepath.Dir(d), 0o777); err != nil {
+			return nil, "", err
+		}
+		if err := it.im.Materialize(d); err != nil {
+			return nil, "", fmt.Errorf("materialize %v: %w", it.im.Desc, err)
+		}
+		job.Items = append(job.Items, crashRecItem{ID: strconv.Itoa(i), Dir: d, Cfg: cfg, M: it.cx.M, InFl: it.cx.InFl, Second: second})
+	}
+	jb, _ := json.Marshal(job)
+	jp := filepath.Join(dir, "job.json")
+	if err := os.WriteFile(jp, jb, 0o666); err != nil {
+		return nil, "", err
+	}
+	cmd := exec.Command(os.Args[0], "-test.run", "^TestCheck$", "-test.timeout", "0")
+	cmd.Env = selfEnv("VERIF_C13_RECOVER="+jp, "GOMAXPROCS=2")
+	var stderr strings.Builder
+	cmd.Stdout = &stderr
+	cmd.Stderr = &stderr
+	if err := cmd.Start(); err != nil {
+		return nil, "", err
+	}
+	done := make(chan error, 1)
+	go func() { done <- cmd.Wait() }()
+	timedOut := false
+	select {
+	case <-done:
+	case <-time.After(timeout):
+		timedOut = true
+		cmd.Process.Kill()
+		<-done
+	}
+	res := map[string]*CrashObs{}
+	if f, err := os.Open(job.Out); err == nil {
+		sc := bufio.NewScanner(f)
+		sc.Buffer(make([]byte, 1<<20), 64<<20)
+		for sc.Scan() {
+			var o CrashObs
+			if json.Unmarshal(sc.Bytes(), &o) == nil && o.ID != "" {
+				oo := o
+				res[o.ID] = &oo
+			}
+		}
+		f.Close()
+	}
+	t := stderr.String()
+	if timedOut {
+		t = "TIMEOUT (recovery hangs)\n" + t
+	}
+	return res, t, nil
+}
+
+var repoFrameRe = regexp.MustCompile(`(?m)^(github\.com/influxdata/influxdb/v2/[^\n]*)\([^()\n]*\)\s*$`)
+
+// deathClass turns the output of a recovery subprocess that died or hung into a short deterministic description.
+func deathClass(out string) string {
+	what := "died"
+	switch {
+	case strings.HasPrefix(out, "TIMEOUT"):
+		return "hang (no result within the time limit)"
+	case strings.Contains(out, "stack overflow") || strings.Contains(out, "goroutine stack exceeds"):
+		what = "fatal error: stack overflow"
+	case strings.Contains(out, "fatal error:"):
+		i := strings.Index(out, "fatal error:")
+		what = strings.SplitN(out[i:], "\n", 2)[0]
+	case strings.Contains(out, "unexpected fault address") || strings.Contains(out, "SIGBUS"):
+		what = "SIGBUS (read of a mapping beyond the end of the file)"
+	case strings.Contains(out, "panic:"):
+		i := strings.Index(out, "panic:")
+		what = strings.SplitN(out[i:], "\n", 2)[0]
+	}
+	if m := repoFrameRe.FindStringSubmatch(out); m != nil {
+		what += " @ " + m[1]
+	}
+	return what
+}
+
+// recoverAll runs the recovery for all items in subprocess batches, isolating an item that kills its subprocess.
+// expired (may be nil) is polled between batches; items not reached stay nil and capped is returned true.
+func recoverAll(scratch string, cfg Cfg, second bool, items []crashItem, expired func() bool) (obs []*CrashObs, notes map[int]string, capped bool, err error) {
+	obs = make([]*CrashObs, len(items))
+	notes = map[int]string{}
+	batch := 256
+	if cfg.Domain == DomBig {
+		batch = 16
+	}
+	for lo := 0; lo < len(items); {
+		if expired != nil && expired() {
+			return obs, notes, true, nil
+		}
+		hi := min(lo+batch, len(items))
+		dir, err := os.MkdirTemp(scratch, "b-")
+		if err != nil {
+			return nil, nil, false, err
+		}
+		res, _, err := runCrashRecovery(dir, cfg, second, items[lo:hi], 120*time.Second+time.Duration(hi-lo)*time.Second)
+		os.RemoveAll(dir)
+		if err != nil {
+			return nil, nil, false, err
+		}
+		next := hi
+		for i := lo; i < hi; i++ {
+			if o := res[strconv.Itoa(i-lo)]; o != nil {
+				obs[i] = o
+			} else if i < next {
+				next = i
+			}
+		}
+		if next == hi {
+			lo = hi
+			continue
+		}
+		// the subprocess died or hung at item `next`: run it alone, then go on behind it
+		d2, _ := os.MkdirTemp(scratch, "iso-")
+		r2, out2, err2 := runCrashRecovery(d2, cfg, second, items[next:next+1], isolatedTimeout)
+		os.RemoveAll(d2)
+		switch {
+		case err2 != nil:
+			notes[next] = "the isolated recovery could not be run: " + err2.Error()
+		case r2["0"] != nil:
+			obs[next] = r2["0"] // passed alone: the batch death was not caused by this image
+		default:
+			obs[next] = &CrashObs{ID: "0", Died: deathClass(out2)}
+		}
+		for i := next + 1; i < hi; i++ {
+			obs[i] = nil
+		}
+		lo = next + 1
+	}
+	return obs, notes, false, nil
+}
+
+// CrashCase is the replayable form of one crash violation.
+type CrashCase struct {
+	History CrashHistory       `json:"history"`
+	Desc    crashfs.Descriptor `json:"image"`
+	Digest  string             `json:"log_prefix_digest"`
+	Second  bool               `json:"second_restart"`
+	Cut     string             `json:"cut_description"`
+}
+
+// fileClass names the kind of file a path of the series file directory denotes.
+func fileClass(p string) string {
+	if i := strings.Index(p, "->"); i >= 0 {
+		p = p[i+2:]
+	}
+	b := filepath.Base(p)
+	switch {
+	case p == "" || p == ".":
+		return ""
+	case b == "index" || b == "index.compacting":
+		return b
+	case strings.HasSuffix(b, ".initializing"):
+		return "segment.initializing"
+	case len(b) == 4:
+		return "segment"
+	case len(b) == 2:
+		return "partition-dir"
+	}
+	return "other"
+}
+
+func cutClass(im *crashfs.Image) string {
+	return strings.TrimSuffix(im.NextOp+":"+fileClass(im.NextPath), ":")
+}
+
+// crashSig: clause, stage of the recovery checker, kind of cut, kind of the op in flight, what was happening at the cut.
+func crashSig(clause, stage string, im *crashfs.Image, cx crashCtx) string {
+	return vlib.JoinSig("crash", clause, stage, "cut="+im.Desc.Kind, "inflight="+cx.Infl, "at="+cutClass(im))
+}
+
+// manualTornLens: torn lengths of the manual enumeration: every length up to 4096 bytes, else the first and last 64
+// and every 4096th.
+func manualTornLens(n int) []int {
+	var out []int
+	if n <= 4096 {
+		for i := 1; i < n; i++ {
+			out = append(out, i)
+		}
+		return out
+	}
+	for i := 1; i <= 64; i++ {
+		out = append(out, i)
+	}
+	for i := 4096; i < n-64; i += 4096 {
+		out = append(out, i)
+	}
+	for i := n - 64; i < n; i++ {
+		out = append(out, i)
+	}
+	return out
+}
+
+// manualDescriptors lists the descriptors of a Manual history.
+func manualDescriptors(l *crashfs.Log, from, upto int) []crashfs.Descriptor {
+	start, end := len(l.Events), len(l.Events)
+	for i := range l.Events {
+		if e := &l.Events[i]; e.Op == crashfs.OpMarker && e.Marker.Kind == "BEGIN" {
+			if e.Marker.K == from+1 {
+				start = i + 1
+			}
+			if upto != 0 && e.Marker.K == upto+1 {
+				end = i
+			}
+		}
+	}
+	var ds []crashfs.Descriptor
+	for c := start; c <= end; c++ {
+		ds = append(ds, crashfs.Descriptor{Kind: crashfs.KindP, Cut: c, TornLen: -1})
+		if c < len(l.Events) && l.Events[c].Op == crashfs.OpWrite {
+			for _, tl := range manualTornLens(len(l.Events[c].Data)) {
+				ds = append(ds, crashfs.Descriptor{Kind: crashfs.KindT, Cut: c, TornEvent: c, TornLen: tl})
+			}
+		}
+		ds = append(ds, crashfs.Descriptor{Kind: crashfs.KindU, Cut: c, TornLen: -1, Drop: "all"}) // Build fails where nothing is dirty
+	}
+	return ds
+}
+
+// crashHistoryRun records one history, enumerates, recovers and judges its images.
+func crashHistoryRun(c *vlib.Ctx, scratch string, h CrashHistory) (stop bool) {
+	d := getDomain(h.Cfg.Domain)
+	t0 := time.Now()
+	l, err := recordCrashHistory(scratch, h)
+	tRec := time.Since(t0)
+	defer func() {
+		c.Logf("crash item %s: record %.1fs, total %.1fs", h, tRec.Seconds(), time.Since(t0).Seconds())
+	}()
+	if err != nil {
+		if errors.Is(err, crashfs.ErrNoTrace) {
+			c.Cap("crash family: strace cannot trace in this environment, no crash image was produced (" + err.Error() + ")")
+			return true
+		}
+		c.HarnessError(fmt.Sprintf("crash family: recording history %s: %v", h, err))
+		return false
+	}
+	cacheCrashLog(h, l)
+	c.Extra("crash_histories", 1)
+	c.Extra("crash_events", int64(len(l.Events)))
+	c.Extra("crash_syscalls_in_logs", int64(l.Syscalls))
+	second := true
+	seen := map[string]bool{}
+	add := func(items []crashItem, im *crashfs.Image) ([]crashItem, bool) {
+		cx, err := contextOf(d, im)
+		if err != nil {
+			c.HarnessError(fmt.Sprintf("crash family: history %s image %v: %v", h, im.Desc, err))
+			return items, false
+		}
+		if !h.keep(cx) {
+			return items, true
+		}
+		key := fmt.Sprintf("%s/%d/%d", im.Hash, cx.NAcked, cx.InflI)
+		if cx.Infl == "none" {
+			key += "/none"
+		}
+		if seen[key] {
+			return items, true
+		}
+		seen[key] = true
+		return append(items, crashItem{im, cx}), true
+	}
+	states := map[string]struct{}{}
+	sampled := false
+	judge := func(items []crashItem, obs []*CrashObs, notes map[int]string) {
+		for i, it := range items {
+			o := obs[i]
+			if o == nil {
+				if n, ok := notes[i]; ok {
+					c.HarnessError(fmt.Sprintf("crash family: history %s image %v: %s", h, it.im.Desc, n))
+				}
+				continue
+			}
+			im, cx := it.im, it.cx
+			clause, stage, detail := classify(o)
+			if clause == "harness" || o.Clause == "harness" {
+				c.HarnessError(fmt.Sprintf("crash family: history %s image %v: %s %s", h, im.Desc, detail, o.Why))
+				continue
+			}
+			c.Eval(1)
+			c.Extra("crash_images", 1)
+			c.Extra("crash_recoveries", 1)
+			c.Extra("crash_images_"+im.Desc.Kind, 1)
+			c.Extra("crash_cuts_at:"+cutClass(im), 1)
+			if o.State != "" {
+				states[o.State] = struct{}{}
+			}
+			if len(o.Phantoms) > 0 {
+				c.Extra("crash_images_with_unacknowledged_foreign_entries", 1)
+			}
+			if len(cx.M.Used) > 0 {
+				c.Nontrivial("crash|" + crashHistoryKey(h) + "|" + im.Desc.String())
+			}
+			res := "ok"
+			if clause != "" {
+				res = "FAIL:" + clause + "@" + stage
+			}
+			ph := ""
+			if len(o.Phantoms) > 0 {
+				ph = "/foreign-entries"
+			}
+			c.Outcome(fmt.Sprintf("crash:%s/inflight=%s/%s%s:%s", im.Desc.Kind, cx.Infl, o.Settle, ph, res))
+			cutDesc := fmt.Sprintf("%v: %s %s", im.Desc, im.NextOp, im.NextPath)
+			if clause != "" {
+				c.Violation(crashSig(clause, stage, im, cx),
+					fmt.Sprintf("crash history %s, image %s; acknowledged: live=%v deleted=%v, in flight: %s — recovery checker stage %s: %s", h, cutDesc, cx.M.Live, cx.M.Dead, inflStr(cx), stage, detail),
+					Case{Crash: &CrashCase{History: h, Desc: im.Desc, Digest: prefixDigest(l, im.Desc), Second: second, Cut: cutDesc}})
+			} else if !sampled && h.From <= 0 && c.WantSample() && im.Desc.Kind == crashfs.KindT && cx.Infl == OpCreate && len(cx.M.Live) > 0 {
+				sampled = true
+				c.Sample(map[string]any{"family": "crash", "history": h.String(), "image": im.Desc.String(), "at": im.NextOp + " " + im.NextPath,
+					"acknowledged_live": fmt.Sprint(cx.M.Live), "in_flight": inflStr(cx), "in_flight_op_after_recovery": o.Settle, "recovered_state_after_recreating_all_keys": o.State})
+			}
+		}
+	}
+	run := func(items []crashItem) bool {
+		t1 := time.Now()
+		defer func() {
+			c.Logf("crash item %s: %d images recovered in %.1fs (enumeration done at %.1fs)", h, len(items), time.Since(t1).Seconds(), t1.Sub(t0).Seconds())
+		}()
+		obs, notes, capped, err := recoverAll(scratch, h.Cfg, second, items, func() bool { return crashExpired(c) })
+		if err != nil {
+			c.HarnessError("crash family: recovery batch: " + err.Error())
+			return false
+		}
+		judge(items, obs, notes)
+		if capped {
+			c.Cap("the crash family's share of the budget expired (recovery of history " + h.Name + ")")
+			return false
+		}
+		return true
+	}
+	if h.Manual {
+		var items []crashItem
+		gen := map[string]int{}
+		for _, ds := range manualDescriptors(l, h.From, h.Upto) {
+			im, err := l.Build(ds, crashImgOpts)
+			if err != nil {
+				if ds.Kind == crashfs.KindU {
+					continue // nothing dirty at this cut
+				}
+				c.HarnessError(fmt.Sprintf("crash family: history %s: %v", h, err))
+				return false
+			}
+			gen[ds.Kind]++
+			var ok bool
+			if items, ok = add(items, im); !ok {
+				return false
+			}
+			if len(items) >= 16 {
+				if !run(items) {
+					return false
+				}
+				items = nil
+			}
+		}
+		for k, n := range gen {
+			c.Extra("crash_images_generated_"+k, int64(n))
+		}
+		if len(items) > 0 && !run(items) {
+			return false
+		}
+	} else {
+		var items []crashItem
+		var st crashfs.Stats
+		for im := range l.Images(crashImgOpts, &st) {
+			var ok bool
+			if items, ok = add(items, im); !ok {
+				return false
+			}
+		}
+		for _, k := range []string{"P", "T", "U"} {
+			c.Extra("crash_images_generated_"+k, int64(st.Generated[k])) // by the engine, before deduplication and the From filter
+		}
+		c.Extra("crash_writes_with_subsampled_torn_lengths", int64(st.LongTorn))
+		if !run(items) {
+			return false
+		}
+	}
+	c.Extra("crash_distinct_recovered_states", int64(len(states)))
+	return false
+}
+
+func inflStr(cx crashCtx) string {
+	if cx.InFl == nil {
+		return cx.Infl
+	}
+	s := cx.InFl.Op.String()
+	if cx.InFl.Op.Kind == OpDelete {
+		s += fmt.Sprintf(" id=%d", cx.InFl.Target)
+	}
+	return s
+}
+
+// The crash family may use at most half of the tier's wall budget, so that on an overloaded machine the sequence
+// families still run (a cap is recorded, never an alarm).
+var crashDeadline time.Time
+
+func crashShare(c *vlib.Ctx) time.Duration {
+	if s := os.Getenv("C13_CRASH_SHARE_S"); s != "" { // development aid (mutation runs on an overloaded machine)
+		if v, err := strconv.Atoi(s); err == nil {
+			return time.Duration(v) * time.Second
+		}
+	}
+	if c.Thorough() {
+		return 390 * time.Second
+	}
+	return 30 * time.Second
+}
+
+func crashExpired(c *vlib.Ctx) bool { return c.Expired() || time.Now().After(crashDeadline) }
+
+// runCrash is the crash phase of Run: this worker's share of the histories.
+func runCrash(c *vlib.Ctx) {
+	defer func() {
+		if r := recover(); r != nil { // a bug of the machinery must never look like a finding or kill the report
+			c.HarnessError(fmt.Sprintf("crash family: explorer panicked: %v\n%s", r, debug.Stack()))
+		}
+	}()
+	if os.Getenv("C13_ONLY") == "seq" {
+		return
+	}
+	scratch := vlib.Scratch("c13c-")
+	defer os.RemoveAll(scratch)
+	crashDeadline = time.Now().Add(crashShare(c))
+	for hi, h := range crashHistories(c.Tier) {
+		if !c.Mine(int64(hi)) {
+			continue
+		}
+		if crashExpired(c) {
+			c.Cap("the crash family's share of the budget expired (before history " + h.Name + ")")
+			break
+		}
+		if crashHistoryRun(c, scratch, h) {
+			return
+		}
+	}
+}
+
+func replayCrash(cs *CrashCase) (bool, string) {
+	scratch := vlib.Scratch("c13cr-")
+	defer os.RemoveAll(scratch)
+	h := cs.History
+	d := getDomain(h.Cfg.Domain)
+	l, msg := findCrashLog(scratch, h, cs.Desc, cs.Digest)
+	if l == nil {
+		return false, msg
+	}
+	im, err := l.Build(cs.Desc, crashImgOpts)
+	if err != nil {
+		return false, "cannot rebuild the image: " + err.Error()
+	}
+	cx, err := contextOf(d, im)
+	if err != nil {
+		return false, err.Error()
+	}
+	dir, _ := os.MkdirTemp(scratch, "img-")
+	res, out, err := runCrashRecovery(dir, h.Cfg, cs.Second, []crashItem{{im, cx}}, isolatedTimeout)
+	if err != nil {
+		return false, "recovery could not be run: " + err.Error()
+	}
+	obs := fmt.Sprintf("crash history %s image %v (at the cut: %s %s; acknowledged: live=%v deleted=%v, in flight: %s): ", h, cs.Desc, im.NextOp, im.NextPath, cx.M.Live, cx.M.Dead, inflStr(cx))
+	o := res["0"]
+	if o == nil {
+		o = &CrashObs{ID: "0", Died: deathClass(out)}
+	}
+	clause, stage, detail := classify(o)
+	if clause == "" {
+		return false, obs + "recovers as the oracle demands; in-flight op: " + o.Settle + "; state after re-creating all keys: " + o.State
+	}
+	return clause != "harness" && o.Clause != "harness", obs + clause + "@" + stage + ": " + detail
+}
+
 func TestCheck(t *testing.T) {
+	if js := os.Getenv("VERIF_CRASH_WRITER"); js != "" {
+		os.Exit(crashWriterMain(js))
+	}
+	if jp := os.Getenv("VERIF_C13_RECOVER"); jp != "" {
+		os.Exit(crashRecoverMain(jp))
+	}
+	if n := os.Getenv("VERIF_C13_DUMP"); n != "" { // development aid: print the event list of one crash history
+		for _, h := range crashHistories("thorough") {
+			if h.Name != n {
+				continue
+			}
+			scratch := vlib.Scratch("c13d-")
+			defer os.RemoveAll(scratch)
+			l, err := recordCrashHistory(scratch, h)
+			if err != nil {
+				fmt.Println("record:", err)
+				return
+			}
+			for _, e := range l.Events {
+				if len(e.Data) > 48 {
+					e.Data = e.Data[:48]
+				}
+				b, _ := json.Marshal(e)
+				fmt.Println(string(b))
+			}
+		}
+		return
+	}
 	vlib.Main(t, &vlib.Check{
-		ID: "C13", Level: "model_checking", QuickBudgetS: 45, ThoroughBudgetS: 780, WorkerEnv: []string{"GOMAXPROCS=2"},
+		ID: "C13", Level: "model_checking", QuickBudgetS: 60, ThoroughBudgetS: 780, WorkerEnv: []string{"GOMAXPROCS=2"},
 		Rule: "every op sequence within the stated length bounds, each executed from scratch on the real tsdb.SeriesFile (8 partitions) in a fresh directory, in five families (visited in this order; a run that hits its wall budget says which family it stopped in). " +
 			"(explicit: length <= 3 quick / <= 4 thorough) 13-op alphabet over 4 keys K0..K3 (K0,K1 in one partition, K2,K3 in two others): create{K0},{K1},{K2},{K3}, batch create {K0,K1}, {K1,K1} (duplicate inside one call), {K3,K0,K1,K2,K0}; DeleteSeriesID(id last returned for Ki) for i=0..3 (an id never handed out when Ki was never created; the same id again when already deleted); reopen (Close + new SeriesFile + Open); compact (SeriesPartitionCompactor.Compact on all 8 partitions: index rebuilt to index.compacting, renamed, in-memory tail replayed). " +
 			"(auto: length <= 2 / <= 3) the same alphabet without the explicit compact but with CompactThreshold=1: every creating call starts the partition's own background index compaction, which is awaited. " +
 			"(roll: length <= 2 / <= 4) all keys in one partition; fixed prefix = one call creating 64 keys of 65 KB that fill the fixed 4 MiB segment 0000 to within half an entry; then every sequence over {create big A, create big B (do not fit: roll to segment 0001), create short key (fits), delete A, delete short, delete first prefill key, reopen, compact}. " +
 			"(explicit-pair: length exactly 4 quick / 5 and 6 thorough) 6-op alphabet over the two keys sharing a partition {create K0, create K1, delete K0, delete K1, reopen, compact}; (auto-pair: length 3 / 4,5) the same without compact and with CompactThreshold=1. " +
 			"After EVERY step: returned ids judged by the model (same key -> same id; two occurrences in one call -> same id; distinct keys -> distinct ids; new or re-created key -> id never handed out before, non-zero), then SeriesID/HasSeries of every key of the domain (live -> its id; deleted or never created -> 0), SeriesKey(id) of every live id parses back to its key, IsDeleted false for live and true for deleted ids. After the last step the recovery checker: Close, Open, read all, create all op keys again in one call (live keep ids, others get never-used ids), read all; thorough additionally Close, Open, read all. " +
-			"State = canonical model state (per key never/live/deleted + number of incarnations) + file layout (per touched partition: on-disk index count, in-memory count, number of segments, index file present); transition = one executed op; trace = one complete history validated on the implementation. Non-trivial = histories that create at least one series (distinct by construction). Crash images are NOT part of this run (added separately with crashfs on PerformHistory / CheckRecovery).",
+			"State = canonical model state (per key never/live/deleted + number of incarnations) + file layout (per touched partition: on-disk index count, in-memory count, number of segments, index file present); transition = one executed op; trace = one complete history validated on the implementation. Non-trivial = histories that create at least one series (distinct by construction). " +
+			"CRASH FAMILY (additional clause, engine crashfs; counted under the crash_* coverage keys and the crash:* outcomes, not under states/transitions/traces): histories performed by a writer subprocess (PerformHistory on the real SeriesFile, GOMAXPROCS=1) under strace with BEGIN/ACK markers around the initial Open of the empty directory and every op; the process exits without closing. Quick: 5 hand-picked histories, every cut (open-create-batch: initial Open of 8 partitions, single create, create of a live + a new key of one partition, batch over 3 partitions with a repeat; delete-recreate: 8 ops with tombstones, re-creation, reopen, delete of a deleted id; id-byte-boundary: 32 series in partition 7 (ids 8..0x100) acknowledged in one call, then create (id 0x108), delete of it, create of two, delete of id 0x100, re-creation — cuts from op 1 on; compact: explicit index compaction of one partition twice (index.compacting written, fsynced, renamed over index) with live, deleted and later entries; auto-compact: CompactThreshold=1, background compaction inside the creating call), split into 10 work items by op window (each item re-records the history and evaluates the cuts of its ops only). Thorough: longer versions of these (one work item per op), the whole 32-entry prefill write of id-byte-boundary, compaction of all 8 partitions, a segment-roll history (64 keys of 65 KB fill segment 0000; big key A rolls to 0001, short key, delete, big key B, delete of a prefill key; images built one by one from descriptors for the cuts from op 1 on: every P cut, torn lengths 1..64, every 4096th, last 64 of each write, and the drop-all U image of every cut), plus EVERY sequence of length 1..2 over the 8-op crash alphabet {create K0, K1, {K0,K1}, {K3,K0,K1,K2,K0}, delete K0, delete K1, reopen, compact(partition of K0)} and of length 3 over its 6-op same-partition part (cuts of the last op only, so every (prefix, cut) is evaluated once). Per history every prefix of the syscall-level event list (P), every torn length 1..n-1 of the write in flight (T; all writes of the non-roll histories are < 4096 bytes: no subsampling), and for the sync classes (segment files 0000.., also under their .initializing name; index and index.compacting) the images with un-fsynced data dropped or its last write torn (U); directory operations in program order; images deduplicated by (content, acknowledged ops, op in flight). One evaluation = one (image, acknowledgement context) recovered in a fresh subprocess by CheckRecovery: real SeriesFile.Open on the image; SeriesID/HasSeries of every key, SeriesKey/IsDeleted of every id ever acknowledged; re-creation of every key of the domain in one call; read all; Close; Open (second restart); read all. Crash oracle: Open succeeds; every series acknowledged before the cut keeps (key, id) (SeriesID(key) = id, SeriesKey(id) = key, not deleted), every acknowledged (flushed) delete stays deleted; keys of a create in flight are absent or live with a never-acknowledged id whose SeriesKey is the key; the target of a delete in flight is live with its id or deleted; keys created after the recovery get ids never acknowledged before, distinct, and all of this is unchanged after the second restart. Non-trivial crash case = at least one series acknowledged before the cut.",
 		Assumptions: []string{
 			"SeriesCount is not judged (the statement does not define it; it counts deleted series until the next index compaction) — only recorded as an outcome class",
 			"SeriesKey(id) of a deleted id and id == partition+1 (mod 8) are not judged (statement silent); a wrong congruence shows up as SeriesKey/IsDeleted of a live id being routed to the wrong partition",
 			"deleting an id that was never handed out, or twice, must not change any key->id mapping (it is executed; its own return value is not judged)",
 			"index compaction = SeriesPartitionCompactor.Compact (explicit, synchronous) or the partition's own background compaction awaited via Compacting(); the offline segment rewrite SeriesSegment.CompactToPath (influxd inspect) is out of scope",
 			"the key->partition choice of the fixture (xxhash of the serialised key mod 8) is only used to pick keys sharing a partition",
+			"CompactThreshold=1 families open the series file with WithMaxCompactionConcurrency(8): with the default (GOMAXPROCS) the partitions of a batch that get to compact would depend on goroutine timing",
+			"crash family: ordered-metadata crash model (creates/renames/unlinks persist in program order; data of sync-class files may be lost back to the last fsync = U images; a write in flight may persist any byte prefix = T images, byte-granular, into the pre-sized sparse segment); event order = syscall completion order",
+			"crash family: deletes are flushed (DeleteSeriesID(id, true)); an acknowledged delete must then stay deleted. Unflushed deletes are not part of the crash histories",
+			"crash family: an insert entry found in a segment after recovery that nobody acknowledged and that is not a key of the create in flight (a torn entry read back as a complete one with a truncated key) is NOT judged — the statement only protects series that had been created; it is counted (crash_images_with_unacknowledged_foreign_entries, outcome suffix /foreign-entries)",
+			"crash family: the second restart is a clean Close + Open after the re-creation",
 		},
 		Run: func(c *vlib.Ctx) {
+			runCrash(c) // crash family first: of fixed size, so a budget cap always lands in the sequence families
+			if os.Getenv("C13_ONLY") == "crash" {
+				return
+			}
 			base := vlib.Scratch("c13-")
 			defer os.RemoveAll(base)
 			var idx int64
@@ -1101,6 +2180,9 @@ func TestCheck(t *testing.T) {
 			var cs Case
 			if err := json.Unmarshal(raw, &cs); err != nil {
 				return false, err.Error()
+			}
+			if cs.Crash != nil {
+				return replayCrash(cs.Crash)
 			}
 			base := vlib.Scratch("c13r-")
 			defer os.RemoveAll(base)
